@@ -69,6 +69,29 @@ def text_scenarios(tier, rng):
     return out
 
 
+def via_scenarios(tier, rng):
+    """from_textfile -> map_async -> consumer: the pipeline is stopped through the map_async node in the middle of a batch of
+    records; afterwards more is written: nothing of it may come out (no start has been called)"""
+    out = []
+    for k in range(30 if tier == "quick" else 300):
+        n1 = rng.randint(2, 4)
+        first = "".join("r%d\n" % i for i in range(n1)).encode()
+        second = b"late\nlater\n"
+        cfg = {"kind": "textfile", "poll": 1, "delimiter": "\n", "dname": "DelimNL", "from_end": False, "initial": "",
+               "chunks": [list(first), list(second)], "cons": rng.choice(["future", "sync"]), "via": "map_async"}
+        sched = ["S", "W0", "P"]
+        # let some of the records through, stop via the map_async node, let the rest of the cycle finish
+        sched += [rng.choice(["s", "d", "s"]) for _ in range(rng.randint(0, 6))]
+        sched += ["M"]
+        sched += [rng.choice(["s", "d", "P"]) for _ in range(rng.randint(2, 8))]
+        sched += ["W1", "P", "P"]
+        out.append([cfg, sched])
+        # ... or from inside the delivery of the k-th record (a sibling consumer served first)
+        cfg2 = dict(cfg, via_stop_at=rng.randint(1, n1))
+        out.append([cfg2, ["S", "W0", "P"] + [rng.choice(["s", "d", "P"]) for _ in range(rng.randint(2, 8))] + ["W1", "P", "P", "d", "P"]])
+    return out
+
+
 def multibyte_scenarios():
     """a poll that falls inside a two-byte character (known finding F17)"""
     data = "a\né\nb\n".encode("utf-8")
@@ -127,7 +150,7 @@ def run(tier, seed, mutant=None, only_validate=False):
                 for fe, init in ((False, "<<>>"), (True, "<<120, 10, 121>>")):
                     r, rec = amod.mc(res, work, "TextFile", "%s_fe%d" % (dname, fe),
                                      dict(Alphabet="<-AlphaDef", Delim="<-DelimDef", Initial="<-InitialDef",
-                                          MaxLen=(6 if tier == "quick" else 7) + (3 if fe else 0), FromEnd=fe), INVS, workers=16,
+                                          MaxLen=(6 if tier == "quick" else 7) + (3 if fe else 0), FromEnd=fe), INVS, ["NoReadWhileStopped"], workers=16,
                                      extra_defs="AlphaDef == {120, 10, 124}\nDelimDef == %s\nInitialDef == %s" % (dt, init))
                     amod.spec_violation(res, r, rec, {}, "C17", "textfile")
             r, rec = amod.mc(res, work, "Filenames", "f6", dict(Files="<-FilesDef", Matching="<-MatchingDef"),
@@ -135,7 +158,7 @@ def run(tier, seed, mutant=None, only_validate=False):
                              extra_defs="FilesDef == 1 .. 5\nMatchingDef == {1, 2, 3, 4}")
             amod.spec_violation(res, r, rec, {}, "C17", "filenames")
         # ---- real from_textfile
-        scen = text_scenarios(tier, rng) + multibyte_scenarios()
+        scen = text_scenarios(tier, rng) + multibyte_scenarios() + via_scenarios(tier, rng)
         sfile = os.path.join(work, "scen.json")
         tmpdir = os.path.join(work, "files")
         os.makedirs(tmpdir, exist_ok=True)
@@ -158,6 +181,8 @@ def run(tier, seed, mutant=None, only_validate=False):
             for ev in r["ev"]:
                 if ev["ev"] == "write":
                     t.append({"ev": "Write", "data": ev["data"]})
+                elif ev["ev"] in ("start", "stop"):
+                    t.append({"ev": ev["ev"].capitalize()})
                 elif ev["ev"] == "deliver":
                     t.append({"ev": "Emit", "rec": ev.get("raw", [-1])})
                 elif ev["ev"] == "end":
@@ -239,7 +264,7 @@ def _collect(res, node, traces, reached, problems):
             cfg = {k: v for k, v in r["cfg"].items() if k != "tmpdir"}
             # start() on the started source and stop();start() must change nothing: a run with such calls that loses or
             # repeats records breaks the source lifecycle (C18) as well
-            life = sum(1 for o in r["schedule"] if o in ("S", "T")) > 1
+            life = sum(1 for o in r["schedule"] if o in ("S", "T", "M")) > 1 or bool(r["cfg"].get("via"))
             res.violations.append(dict(
                 property="C17", also=["C18"] if life else [], engine="asrcfile", clause=evt["ev"],
                 what="%s %s schedule '%s': event #%d %s is not what the specification allows (record lost / duplicated / "
